@@ -2,6 +2,7 @@ package main
 
 import (
 	"sort"
+	"strconv"
 	"strings"
 
 	"rcproxy/core"
@@ -155,6 +156,25 @@ func suiteCDecode(c *Ctx) {
 			}
 			emit(limit, m, "mutated", how)
 		}
+	}
+	// key lists longer than the number of slots: quick tier 500 keys (every fragment map grows well
+	// past its first size), thorough tier 16390 keys (more keys than slots; the model needs minutes)
+	for _, cmd := range []string{"mget", "del", "mset"} {
+		nk := 500
+		if !c.Quick() {
+			nk = 16390
+		}
+		if !c.Quick() && cmd != "mget" {
+			nk = 4000 // one full-size case is enough for the thorough tier's budget
+		}
+		args := [][]byte{[]byte(cmd)}
+		for i := 0; i < nk; i++ {
+			args = append(args, []byte("k"+strconv.Itoa(i)))
+			if cmd == "mset" {
+				args = append(args, []byte("v"))
+			}
+		}
+		emit(big, reqgen.Enc(args), "long-key-list")
 	}
 	// every prefix of a few requests
 	for i := 0; i < 12; i++ {
